@@ -91,6 +91,42 @@ theorem buildLoop_dry_flags {F : BodyFn} {P : Project} {g : G} {cfg : Cfg} (hd :
     obtain ⟨a, b⟩ := protocol_dry_flags F P g cfg s spec hd hm hs hc
     exact buildLoop_dry_flags hd hm ts _ _ so' s' h3 a b
 
+/-- In a dry run only a FAIL report can trip the failure limit (`session.should_stop`): whatever `max_failures` is. -/
+theorem protocol_dry_stop (F : BodyFn) (P : Project) (g : G) (cfg : Cfg) (s : Sess) (t : TaskSpec)
+    (hd : cfg.dry = true) (hs : s.stop = false) (hc : s.crashed = false) :
+    (protocol F P g cfg s t).crashed = false ∧
+    ((protocol F P g cfg s t).stop = true → (t.id, Outcome.fail) ∈ (protocol F P g cfg s t).reports) := by
+  have hprot : protocol F P g cfg s t =
+      processReport P g cfg (runPhases F P g cfg s t).2 t (runPhases F P g cfg s t).1 := rfl
+  rw [hprot, runPhases_dry F P g cfg s t hd]
+  unfold processReport
+  cases (runPhases F P g cfg s t).1 <;> simp [recordStates_dry P g cfg s.w t.id hd, hs, hc]
+
+theorem buildLoop_dry_stop {F : BodyFn} {P : Project} {g : G} {cfg : Cfg} (hd : cfg.dry = true) :
+    ∀ (picks : List Nat) (so : Sorter) (s : Sess) (so' : Sorter) (s' : Sess),
+      buildLoop F P g cfg so s picks = .ok (so', s') → s.stop = false → s.crashed = false →
+      s'.crashed = false ∧ (s'.stop = true → ∃ t, (t, Outcome.fail) ∈ s'.reports)
+  | [], so, s, so', s', h, hs, hc => by
+    simp only [buildLoop, Except.ok.injEq, Prod.mk.injEq] at h
+    obtain ⟨_, rfl⟩ := h
+    exact ⟨hc, fun h => by rw [hs] at h; cases h⟩
+  | t :: ts, so, s, so', s', h, hs, hc => by
+    obtain ⟨_, _, spec, _, h3⟩ := buildLoop_cons h
+    obtain ⟨a, b⟩ := protocol_dry_stop F P g cfg s spec hd hs hc
+    by_cases hst : (protocol F P g cfg s spec).stop = true
+    · -- the loop ends here
+      cases ts with
+      | nil =>
+        simp only [buildLoop, Except.ok.injEq, Prod.mk.injEq] at h3
+        obtain ⟨_, rfl⟩ := h3
+        exact ⟨a, fun _ => ⟨spec.id, b hst⟩⟩
+      | cons u us =>
+        have := (buildLoop_cons h3).1
+        rw [hst] at this
+        simp at this
+    · have hst' : (protocol F P g cfg s spec).stop = false := by simpa using hst
+      exact buildLoop_dry_stop hd ts _ _ so' s' h3 hst' a
+
 /-- a real build never attaches `would_be_executed` marks -/
 theorem protocol_real_wbe (F : BodyFn) (P : Project) (g : G) (cfg : Cfg) (s : Sess) (spec : TaskSpec) (t : Nat)
     (hfind : Project.find? P t = some spec) (hd : cfg.dry = false) (hw : s.wbeMarks = []) :
